@@ -387,6 +387,187 @@ def m_is_ascii_upper(it, ctx, a, m, f):
     return in_range(deref(a[0]), 65, 90)
 
 
+@model(r'str::<impl str>::contains::<(char|&str|&String)>$')
+def m_contains(it, ctx, a, m, f):
+    s = S(a[0])
+    if m.group(1) == 'char':
+        return b_or(*[v_eq(c, a[1]) for c in s.cs])
+    p = S(a[1]); k = len(p.cs)
+    if k == 0:
+        return True
+    return b_or(*[seq(SStr(s.cs[i:i + k]), p) for i in range(0, len(s.cs) - k + 1)])
+
+
+@model(r'str::<impl str>::(find|rfind)::<(char|&str)>$')
+def m_find(it, ctx, a, m, f):
+    s = S(a[0])
+    if m.group(2) == 'char':
+        pred = lambda i: v_eq(s.cs[i], a[1]); k = 1
+    else:
+        p = S(a[1]); k = len(p.cs)
+        pred = lambda i: seq(SStr(s.cs[i:i + k]), p)
+    rng = range(0, len(s.cs) - k + 1)
+    if m.group(1) == 'rfind':
+        rng = reversed(rng)
+    for i in rng:
+        if ctx.decide(pred(i)):
+            return Some(it.utf8_len(ctx, SStr(s.cs[:i])))
+    return NoneV()
+
+
+@model(r'str::<impl str>::split_once::<(char|&str)>$')
+def m_split_once(it, ctx, a, m, f):
+    s = S(a[0])
+    if m.group(1) == 'char':
+        pred = lambda i: v_eq(s.cs[i], a[1]); k = 1
+    else:
+        p = S(a[1]); k = len(p.cs)
+        pred = lambda i: seq(SStr(s.cs[i:i + k]), p)
+    for i in range(0, len(s.cs) - k + 1):
+        if ctx.decide(pred(i)):
+            return Some([SStr(s.cs[:i]), SStr(s.cs[i + k:])])
+    return NoneV()
+
+
+@model(r'str::<impl str>::strip_suffix::<(char|&str)>$')
+def m_strip_suffix(it, ctx, a, m, f):
+    s = S(a[0])
+    if m.group(1) == 'char':
+        if len(s.cs) >= 1 and ctx.decide(v_eq(s.cs[-1], a[1])):
+            return Some(SStr(s.cs[:-1]))
+        return NoneV()
+    p = S(a[1]); n = len(p.cs)
+    if len(s.cs) >= n and ctx.decide(seq(SStr(s.cs[len(s.cs) - n:]), p)):
+        return Some(SStr(s.cs[:len(s.cs) - n]))
+    return NoneV()
+
+
+@model(r'str::<impl str>::trim_matches::<char>$')
+def m_trim_matches(it, ctx, a, m, f):
+    s = S(a[0]); ch = a[1]
+    return SStr(_trim_end(ctx, _trim_start(ctx, s.cs, lambda c: v_eq(c, ch)), lambda c: v_eq(c, ch)))
+
+
+@model(r'str::<impl str>::split_whitespace$|str::<impl str>::split_ascii_whitespace$')
+def m_split_ws(it, ctx, a, m, f):
+    s = S(a[0]); parts = []; cur = []
+    pred = is_rust_whitespace if 'ascii' not in f else (lambda c: b_or(v_eq(c, 32), in_range(c, 9, 10), in_range(c, 12, 13)))
+    for c in s.cs:
+        if ctx.decide(pred(c)):
+            if cur:
+                parts.append(SStr(cur)); cur = []
+        else:
+            cur.append(c)
+    if cur:
+        parts.append(SStr(cur))
+    return Iter(parts)
+
+
+@model(r'<impl char>::is_whitespace$')
+def m_char_is_ws(it, ctx, a, m, f):
+    return is_rust_whitespace(deref(a[0]))
+
+
+@model(r'<impl char>::is_ascii_whitespace$|<impl u8>::is_ascii_whitespace$')
+def m_char_is_ascii_ws(it, ctx, a, m, f):
+    c = deref(a[0])
+    return b_or(v_eq(c, 32), in_range(c, 9, 10), in_range(c, 12, 13))
+
+
+@model(r'<impl char>::is_ascii_alphabetic$|<impl u8>::is_ascii_alphabetic$')
+def m_char_is_alpha(it, ctx, a, m, f):
+    c = deref(a[0])
+    return b_or(in_range(c, 65, 90), in_range(c, 97, 122))
+
+
+@model(r'<impl char>::is_ascii_digit$|<impl u8>::is_ascii_digit$')
+def m_char_is_digit(it, ctx, a, m, f):
+    return in_range(deref(a[0]), 48, 57)
+
+
+@model(r'<impl char>::is_ascii_alphanumeric$|<impl u8>::is_ascii_alphanumeric$')
+def m_char_is_alnum(it, ctx, a, m, f):
+    c = deref(a[0])
+    return b_or(in_range(c, 65, 90), in_range(c, 97, 122), in_range(c, 48, 57))
+
+
+@model(r'<impl char>::is_ascii$|<impl u8>::is_ascii$')
+def m_char_is_ascii(it, ctx, a, m, f):
+    return v_ule(deref(a[0]), 127)
+
+
+@model(r'<impl char>::is_(uppercase|lowercase)$')
+def m_char_is_case(it, ctx, a, m, f):
+    c = deref(a[0])
+    if is_sym(c) or c > 127:
+        raise Unsupported('Unicode case predicate on symbolic / non-ASCII char')
+    return (65 <= c <= 90) if m.group(1) == 'uppercase' else (97 <= c <= 122)
+
+
+@model(r'str::<impl str>::to_(lowercase|uppercase)$')
+def m_str_case(it, ctx, a, m, f):
+    s = S(a[0])
+    for c in s.cs:
+        if is_sym(c):
+            if not ctx.decide(z3.ULT(c, 128)):
+                raise Unsupported('Unicode case mapping of a symbolic non-ASCII char')
+        elif c > 127:
+            raise Unsupported('Unicode case mapping')
+    if m.group(1) == 'lowercase':
+        return SStr([_lower(c) for c in s.cs])
+    return SStr([(c - 32 if 97 <= c <= 122 else c) if isinstance(c, int) else z3.If(z3.And(z3.UGE(c, 97), z3.ULE(c, 122)), c - 32, c) for c in s.cs])
+
+
+@model(r'str::<impl str>::to_ascii_uppercase$')
+def m_upper(it, ctx, a, m, f):
+    s = S(a[0])
+    return SStr([(c - 32 if 97 <= c <= 122 else c) if isinstance(c, int) else z3.If(z3.And(z3.UGE(c, 97), z3.ULE(c, 122)), c - 32, c) for c in s.cs])
+
+
+@model(r'str::<impl str>::is_char_boundary$')
+def m_is_char_boundary(it, ctx, a, m, f):
+    raise Unsupported('is_char_boundary')
+
+
+@model(r'str::<impl str>::char_indices$')
+def m_char_indices(it, ctx, a, m, f):
+    s = S(a[0]); out = []; b = 0
+    for c in s.cs:
+        out.append([b, c])
+        b += it.utf8_len(ctx, SStr([c]))
+    return Iter(out)
+
+
+@model(r'str::<impl str>::bytes$')
+def m_bytes(it, ctx, a, m, f):
+    return Iter(m_as_bytes(it, ctx, a, m, f))
+
+
+@model(r'^String::new$|<String as Default>::default$')
+def m_string_new(it, ctx, a, m, f):
+    return SStr(())
+
+
+@model(r'^String::push_str$')
+def m_push_str(it, ctx, a, m, f):
+    r = a[0]; r.set(SStr(tuple(S(r.get()).cs) + tuple(S(a[1]).cs))); return []
+
+
+@model(r'^String::push$')
+def m_push_ch(it, ctx, a, m, f):
+    r = a[0]; r.set(SStr(tuple(S(r.get()).cs) + (a[1],))); return []
+
+
+@model(r'<String as Add<&str>>::add$')
+def m_string_add(it, ctx, a, m, f):
+    return SStr(tuple(S(a[0]).cs) + tuple(S(a[1]).cs))
+
+
+@model(r'str::<impl str>::repeat$')
+def m_repeat(it, ctx, a, m, f):
+    return SStr(tuple(S(a[0]).cs) * a[1])
+
+
 @model(r'str::<impl str>::chars$')
 def m_chars(it, ctx, a, m, f):
     return Iter(list(S(a[0]).cs))
